@@ -169,9 +169,13 @@ func (a *argTrack) Bytes(tok string) []byte {
 	if err != nil {
 		panic("harness: bad bytes token " + tok)
 	}
-	// keep spare capacity poisoned so that an append into the caller's slice would be visible
-	buf := make([]byte, len(b), len(b)+8)
+	// keep spare capacity poisoned so that an append into the caller's slice (also of zero bytes) is visible
+	// 160 bytes of spare capacity (more than any padding: 31, 64, 128, 136) filled with a pattern
+	buf := make([]byte, len(b), len(b)+160)
 	copy(buf, b)
+	for i, sp := 0, buf[len(b):cap(buf)]; i < len(sp); i++ {
+		sp[i] = 0xA5
+	}
 	if concurrentMode {
 		if o, _ := sharedArgs.LoadOrStore("b"+tok, buf); o != nil {
 			buf = o.([]byte)
@@ -263,7 +267,7 @@ func (a *argTrack) mutated() string {
 		}
 		full := b[:cap(b)]
 		for _, x := range full[len(b):] {
-			if x != 0 {
+			if x != 0xA5 {
 				return fmt.Sprintf(" !ARGMUT(bytes#%d spare capacity written)", i)
 			}
 		}
